@@ -12,6 +12,11 @@ address-space constant, one PRE prefix, one view) is compared across all of its 
                       INC/DEC/ADD/SUB/MV/EX on every register at the boundary of every candidate width, both cores
   Key-port window     KOL..KIL in IMEMRegisters, memory.rs, keyboard.rs, pce500 keyboard handler / overlay and the
                       bus of CoreRuntime::step (byte and wide accesses at every start offset, with / without keyboard)
+  Opcode classes      literals / ranges that classify opcodes outside the table: emulator.CALL_STACK_EFFECTS and the
+                      WAIT fast path, loop_detector.rs (conditional jumps, RETI), lib.rs CoreRuntime::step (WAIT, RESET,
+                      IR, RETI): the set of opcodes each copy puts into the class, observed over all 256 opcodes
+  Trace records       pce500/emulator.py's own arithmetic for A/B/IL/IH/FC/FZ in the instruction-trace register
+                      record, on a grid of boundary register values, tracing switched off and on (both switches)
   Rust core           llama/opcodes.rs, llama/state.rs, memory.rs, pce500.rs, lib.rs, snapshot.rs (pub items
                       dumped by rust/harness/src/c17.rs) and, for the private copies in llama/eval.rs and
                       lib.rs, behavioural probes (execute IR / RESET / power_on_reset / an interrupt / one
@@ -39,6 +44,13 @@ RULE = ("finite, complete: one case per duplicated item -- 256 opcode rows (norm
         "every register x instruction family that keeps a private idea of register widths (INC/DEC r3, ADD/SUB/MV/EX "
         "r,r': width observed on both cores at the boundary of every candidate width, against the register files; "
         "the set of 20-bit address registers copy by copy), "
+        "every opcode class that some module decides with its own literals or ranges (conditional jumps, call level "
+        "up / down, WAIT, IR, RETI, RESET): the set of opcodes in the class as the two tables give it, as declared "
+        "(CALL_STACK_EFFECTS) and as observed over all 256 opcodes on the Python core, CoreRuntime::step and the "
+        "LoopDetector (direct and fed by the runtime, single steps and one step(n) call), "
+        "every register and sub-register name as *reported by name* by the machine emulator (trace-record collectors, "
+        "get_cpu_state, the instruction-trace record of the step loop with tracing switched on either way) against "
+        "both register files and the declared layouts on a grid of boundary base-register values, "
         "every IMEM register named on "
         "both sides (+ BP/PX/PY as actually used by both cores), the key-port window KOL..KIL in every copy "
         "(constants, predicates, keyboard handlers of both languages, and the CoreRuntime bus observed per direction "
@@ -482,6 +494,274 @@ def check_rel_sign(py_table: Dict[int, Any], rust: Any) -> List[Item]:
                                                              "copies": {k: v for k, v in srcs}})
         group_check(it, "relative-jump-sign", srcs, topic=f"opcode {op:02X}")
         items.append(it)
+    return items
+
+
+# --------------------------------------------------------------------------------------------------
+# A2. opcode classes kept outside the table
+# --------------------------------------------------------------------------------------------------
+# Code that asks "is this opcode a conditional jump / a call / a return / WAIT / IR / RETI / RESET" with its own
+# literals or ranges keeps a private copy of the opcode table: sc62015 emulator.py CALL_STACK_EFFECTS and the
+# WAIT fast path, Rust loop_detector.rs (conditional jumps, RETI), lib.rs CoreRuntime::step (WAIT, RESET, IR,
+# RETI).  Each such copy is reduced to the *set of opcodes* it puts into the class -- read where it is declared,
+# observed over all 256 opcodes where it is private -- and compared with the set the two opcode tables give.
+
+_CLASS_PC = 0x10100
+_CLASS_MEM = {0x100000 + 0xEC: 0x00, 0x100000 + 0xED: 0x00, 0x100000 + 0xEE: 0x00,
+              0x100030: 0x00, 0x100031: 0x30, 0x100032: 0x04, 0x100038: 0x00, 0x100039: 0x38, 0x10003A: 0x04}
+_JP_BACK = [0x02, _CLASS_PC & 0xFF, (_CLASS_PC >> 8) & 0xFF]       # JP mn back to the head of the probe loop
+_LEVEL0 = 2                                                           # call level the probes start from
+
+
+def _ops(v: Any) -> List[str]:
+    return [f"{int(o):02X}" for o in sorted(set(v))]
+
+
+def canonical_code(op: int, p: Dict[str, Any]) -> Optional[bytes]:
+    """The one canonical encoding of the row that check_lengths uses (None: unmapped operand class)."""
+    from ..gen_enc import PRE_OPCODES
+
+    if op in PRE_OPCODES:
+        return bytes([op, 0x00])
+    ops = list(p["operands"])
+    coding = list(reversed(list(enumerate(ops)))) if p["rev"] else list(enumerate(ops))
+    try:
+        return bytes([op]) + b"".join(canonical_operand_bytes(o, i) for i, o in coding)
+    except KeyError:
+        return None
+
+
+def _py_class_run(code: bytes, regs: Dict[str, int]) -> Dict[str, Any]:
+    """One instruction on the Python core: call level afterwards and what the WAIT hook was handed."""
+    from sc62015.pysc62015.emulator import Emulator, RegisterName
+
+    init = dict(_CLASS_MEM)
+    for i, b in enumerate(bytes(code) + bytes(8)):
+        init[_CLASS_PC + i] = b
+    rm = RawMem(init)
+    waits: List[int] = []
+    rm.wait_cycles = lambda n: waits.append(int(n))  # type: ignore[method-assign]
+    emu = Emulator(rm, reset_on_init=False)  # type: ignore[arg-type]
+    for k, v in regs.items():
+        emu.regs.set(RegisterName[k], v)
+    emu.regs.set(RegisterName.PC, _CLASS_PC)
+    emu.regs.call_sub_level = _LEVEL0
+    out: Dict[str, Any] = {}
+    try:
+        emu.execute_instruction(_CLASS_PC)
+    except BaseException as exc:  # noqa: BLE001
+        out["err"] = type(exc).__name__
+    out["level"] = int(emu.regs.call_sub_level)
+    out["waits"] = waits
+    return out
+
+
+def _loop_entries(report: Any, pc: int) -> List[Dict[str, Any]]:
+    if not isinstance(report, dict):
+        return []
+    return [e for e in (report.get("trace") or []) if e.get("pc_before") == pc]
+
+
+def check_opcode_classes(py_table: Dict[int, Any], rust: Any, dump: Dict[str, Any]) -> List[Item]:
+    from sc62015.pysc62015 import emulator as E
+
+    rs_rows = dump["opcodes"]
+    prow = {op: py_row(py_table[op]) for op in sorted(py_table)}
+    py_name = {op: short_name(r["name"]) for op, r in prow.items()}
+    rs_name = {int(r["opcode"]): short_name(r["name"]) for r in rs_rows}
+    rs_kind = {int(r["opcode"]): str(r["kind"]).lower() for r in rs_rows}
+
+    def named(names: Sequence[str]) -> List[Tuple[str, Any]]:
+        want = set(names)
+        return [("python opcode table, rows named " + "/".join(names), _ops(o for o, n in py_name.items() if n in want)),
+                ("rust OPCODES, rows named " + "/".join(names), _ops(o for o, n in rs_name.items() if n in want))]
+
+    # ---- what the Rust runtime does with each of the 256 opcodes (one step each) --------------------
+    def rt_runs(i_val: int, irq: bool) -> List[Dict[str, Any]]:
+        runs = []
+        for op in range(256):
+            code = canonical_code(op, prow[op]) if op in prow else None
+            regs = dict(BASE_REGS)
+            regs["I"] = i_val
+            runs.append({"code": list((code or bytes([op])) + bytes(8)), "pc": _CLASS_PC, "regs": regs,
+                         "mem": [[a, v] for a, v in sorted(_CLASS_MEM.items())], "steps": 1,
+                         "call_level": _LEVEL0, "in_interrupt": irq})
+        return runs
+
+    def rt_call(runs: List[Dict[str, Any]]) -> List[Dict[str, Any]]:
+        resp = rust.call({"cmd": "c17.runtime_trace", "runs": runs})
+        if not resp.get("ok"):
+            raise HarnessError(f"c17.runtime_trace failed: {str(resp)[:300]}")
+        return list(resp["runs"])
+
+    ra, rb, rc = rt_call(rt_runs(5, False)), rt_call(rt_runs(9, False)), rt_call(rt_runs(5, True))
+
+    def last(run: Dict[str, Any]) -> Optional[List[Any]]:
+        tr = run.get("trace") or []
+        return tr[-1] if (len(tr) == 2 and not run.get("err")) else None
+
+    rs_up, rs_down, rs_reset, rs_wait, rs_enter, rs_leave = [], [], [], [], [], []
+    for op in range(256):
+        a, b, c = last(ra[op]), last(rb[op]), last(rc[op])
+        if a is not None:
+            lvl = int(a[3])
+            if lvl == _LEVEL0 + 1:
+                rs_up.append(op)
+            elif lvl == _LEVEL0 - 1:
+                rs_down.append(op)
+            if lvl == 0 and int(a[2]) == 0:
+                rs_reset.append(op)
+            if bool(a[4]):
+                rs_enter.append(op)
+            if b is not None:
+                c0a, c0b = int(ra[op]["trace"][0][1]), int(rb[op]["trace"][0][1])
+                if (int(a[1]) - c0a) != (int(b[1]) - c0b):
+                    rs_wait.append(op)
+        if c is not None and not bool(c[4]) and int(c[3]) != 0:
+            rs_leave.append(op)
+
+    # ---- what the Python core does -------------------------------------------------------------------
+    py_up, py_down, py_wait = [], [], []
+    for op in range(256):
+        code = canonical_code(op, prow[op]) if op in prow else None
+        regs = dict(BASE_REGS)
+        regs["I"] = 5
+        r5 = _py_class_run(code or bytes([op]), regs)
+        if r5["level"] == _LEVEL0 + 1:
+            py_up.append(op)
+        elif r5["level"] == _LEVEL0 - 1:
+            py_down.append(op)
+        if r5["waits"]:
+            regs["I"] = 9
+            r9 = _py_class_run(code or bytes([op]), regs)
+            if r9["waits"] != r5["waits"]:
+                py_wait.append(op)
+
+    # ---- the loop detector: synthetic never-taken loop per opcode through its public API --------------
+    P = _CLASS_PC
+    feeds = []
+    for op in range(256):
+        steps: List[List[int]] = []
+        for _ in range(4):
+            steps += [[P, P + 1, 0x00, 1], [P + 1, P + 3, op, 2], [P + 3, P, 0x02, 3]]
+        feeds.append({"steps": steps})
+    resp = rust.call({"cmd": "c17.loop_feed", "runs": feeds})
+    if not resp.get("ok"):
+        raise HarnessError(f"c17.loop_feed failed: {str(resp)[:300]}")
+    ld_cond, ld_offline, ld_silent = [], [], []
+    for op, report in enumerate(resp["reports"]):
+        ents = _loop_entries(report, P + 1)
+        if not isinstance(report, dict):
+            ld_silent.append(op)
+            continue
+        if ents and all((e.get("branch") or {}).get("kind") == "not_taken" for e in ents):
+            ld_cond.append(op)
+        if not ents or all(e.get("mainline_index") is None for e in ents):
+            ld_offline.append(op)
+
+    # ---- the loop detector as fed by CoreRuntime::step: every jump row really executed, never taken ----
+    jump_rows = sorted(op for op in range(256)
+                       if rs_kind.get(op) in ("jpabs", "jprel") or py_name.get(op) in ("JP", "JR", "JPF")
+                       or op in ld_cond)
+    rt_cond: List[int] = []
+    rt_seen: List[int] = []
+    runs = []
+    for op in jump_rows:
+        code = canonical_code(op, prow[op]) if op in prow else None
+        code = bytes(code or bytes([op, 0x10]))
+        # relative rows get a displacement that clears the probe; absolute rows a target inside the page
+        if len(code) == 2:
+            code = bytes([op, 0x10])
+        elif len(code) == 3:
+            code = bytes([op, (P + 0x40) & 0xFF, ((P + 0x40) >> 8) & 0xFF])
+        for f in (0x00, 0x03):
+            regs = dict(BASE_REGS)
+            regs["F"] = f
+            mem = [[a, v] for a, v in sorted(_CLASS_MEM.items())]
+            for land in (P + len(code), P + 2 + 0x10, P + 2 - 0x10, P + 0x40):
+                mem += [[land + i, b] for i, b in enumerate(_JP_BACK)]
+            for bulk in (False, True):
+                runs.append({"code": list(code), "pc": P, "regs": regs, "mem": mem, "steps": 10,
+                             "loop_detector": True, "bulk": bulk})
+    rr = rt_call(runs) if runs else []
+    rt_cond_bulk: List[int] = []
+    for k, op in enumerate(jump_rows):
+        for j, run in enumerate(rr[4 * k: 4 * k + 4]):
+            ents = _loop_entries(run.get("report"), P)
+            if ents:
+                rt_seen.append(op)
+                if all((e.get("branch") or {}).get("kind") == "not_taken" for e in ents):
+                    (rt_cond_bulk if j % 2 else rt_cond).append(op)
+
+    # ---- the cores themselves: an opcode is a conditional jump when where it goes depends on F ----------
+    def rt_flag_runs(f: int) -> List[Dict[str, Any]]:
+        runs_f = rt_runs(5, False)
+        for r in runs_f:
+            r["regs"]["F"] = f
+        return runs_f
+
+    rf0, rf3 = rt_call(rt_flag_runs(0x00)), rt_call(rt_flag_runs(0x03))
+    rs_flagdep = [op for op in range(256)
+                  if last(rf0[op]) is not None and last(rf3[op]) is not None
+                  and int(last(rf0[op])[0]) != int(last(rf3[op])[0])]  # type: ignore[index]
+    py_flagdep = []
+    for op in range(256):
+        code = canonical_code(op, prow[op]) if op in prow else None
+        pcs = []
+        for f in (0x00, 0x03):
+            regs = dict(BASE_REGS)
+            regs["F"] = f
+            res = py_run(code or bytes([op]), regs, _CLASS_MEM, pc=_CLASS_PC)
+            pcs.append(None if "err" in res else res.get("pc"))
+        if None not in pcs and pcs[0] != pcs[1]:
+            py_flagdep.append(op)
+
+    items: List[Item] = []
+
+    def emit(iid: str, topic: str, srcs: List[Tuple[str, Any]], extra: Optional[Dict[str, Any]] = None) -> None:
+        sample = {"class": topic, "copies": {lb: v for lb, v in srcs}}
+        sample.update(extra or {})
+        it = Item(iid, len(srcs) >= 2, ["opclass", f"opclass:copies={len(srcs)}"], sample)
+        group_check(it, "opcode-class", srcs, topic=topic)
+        items.append(it)
+
+    py_cond = _ops(o for o, r in prow.items() if r["cond"] and py_name[o] in ("JP", "JR", "JPF"))
+    rs_cond = _ops(int(r["opcode"]) for r in rs_rows if r["cond"] and str(r["kind"]).lower() in ("jpabs", "jprel"))
+    emit("opclass:conditional-jump", "conditional jumps",
+         [("python opcode table, JP/JR rows with a condition", py_cond),
+          ("rust OPCODES, JpAbs/JpRel rows with a condition", rs_cond),
+          ("python core, next PC depends on F (observed, 256 opcodes)", _ops(py_flagdep)),
+          ("rust CoreRuntime, next PC depends on F (observed, 256 opcodes)", _ops(rs_flagdep)),
+          ("rust LoopDetector, never-taken step reported as a not-taken branch (observed, 256 opcodes)", _ops(ld_cond)),
+          ("rust CoreRuntime + loop detector, never-taken jump reported as a not-taken branch (observed, jump rows)",
+           _ops(rt_cond)),
+          ("rust CoreRuntime + loop detector, one step(n) call, never-taken jump reported as a not-taken branch "
+           "(observed, jump rows)", _ops(rt_cond_bulk))],
+         {"jump_rows_executed": _ops(jump_rows), "jump_rows_seen_in_a_report": _ops(rt_seen),
+          "opcodes_without_report": _ops(ld_silent)})
+    cse = getattr(E, "CALL_STACK_EFFECTS", None)
+    up = named(["CALL", "CALLF", "IR"])
+    down = named(["RET", "RETF", "RETI"])
+    if isinstance(cse, dict):
+        up.append(("emulator.CALL_STACK_EFFECTS, entries +1", _ops(o for o, d in cse.items() if d == 1)))
+        down.append(("emulator.CALL_STACK_EFFECTS, entries -1", _ops(o for o, d in cse.items() if d == -1)))
+    up += [("python core, call level raised by one (observed, 256 opcodes)", _ops(py_up)),
+           ("rust CoreRuntime, call level raised by one (observed, 256 opcodes)", _ops(rs_up))]
+    down += [("python core, call level lowered by one (observed, 256 opcodes)", _ops(py_down)),
+             ("rust CoreRuntime, call level lowered by one (observed, 256 opcodes)", _ops(rs_down))]
+    emit("opclass:call-level-up", "opcodes that open a call level", up)
+    emit("opclass:call-level-down", "opcodes that close a call level", down)
+    emit("opclass:wait", "WAIT",
+         named(["WAIT"]) + [("python core, memory.wait_cycles hook driven by I (observed, 256 opcodes)", _ops(py_wait)),
+                            ("rust CoreRuntime, cycle count driven by I (observed, 256 opcodes)", _ops(rs_wait))])
+    emit("opclass:interrupt-entry", "IR",
+         named(["IR"]) + [("rust CoreRuntime, timer.in_interrupt raised (observed, 256 opcodes)", _ops(rs_enter))])
+    emit("opclass:interrupt-return", "RETI",
+         named(["RETI"]) + [("rust CoreRuntime, timer.in_interrupt dropped with the call metrics kept (observed, 256 opcodes)",
+                             _ops(rs_leave)),
+                            ("rust LoopDetector, step kept out of the mainline (observed, 256 opcodes)", _ops(ld_offline))])
+    emit("opclass:reset", "RESET",
+         named(["RESET"]) + [("rust CoreRuntime, call metrics cleared (observed, 256 opcodes)", _ops(rs_reset))])
     return items
 
 
@@ -1660,6 +1940,223 @@ def _pce500_irq_vector(page: Dict[int, int]) -> Any:
 
 
 # --------------------------------------------------------------------------------------------------
+# B3. the machine emulator's trace-record copy of the register layout
+# --------------------------------------------------------------------------------------------------
+# pce500/emulator.py builds the per-instruction register record of the instruction trace from a register
+# snapshot with its *own* arithmetic (A/B out of BA, IL/IH out of I, FC/FZ out of F) -- one more copy of the
+# sub-register layout.  Every route that reports registers by name is observed on a grid of boundary values
+# of the base registers (zero, all ones, every single bit, two mixed patterns) and compared with what the
+# register files themselves answer for the same names, with the tracing switches off (collector called
+# directly) and on (record emitted by the step loop; both ways of switching tracing on).
+
+_TRACE_BASES = {"BA": 16, "I": 16, "F": 8}
+_TRACE_FULL = ("PC", "BA", "I", "X", "Y", "U", "S", "F")
+_TRACE_CODE_AT = 0xB8000          # internal RAM window of the machine: NOPs are planted here
+
+
+def _trace_grid() -> List[Dict[str, int]]:
+    """Boundary values of BA / I / F, varied together; the address registers carry self-identifying values."""
+    per: Dict[str, List[int]] = {}
+    for base, bits in _TRACE_BASES.items():
+        full = (1 << bits) - 1
+        vals = [0, full] + [1 << b for b in range(bits)] + [full ^ 1, full ^ 2, 0xA55A & full, 0x1234 & full]
+        per[base] = vals
+    n = max(len(v) for v in per.values())
+    grid = []
+    for k in range(n):
+        pt = {b: per[b][k % len(per[b])] for b in per}
+        pt.update({"X": 0x0ABCDE, "Y": 0x012345, "U": 0x0FFFFF if k % 2 else 0x080001, "S": 0x0BF000})
+        grid.append(pt)
+    return grid
+
+
+def _trace_payload_regs(payload: Dict[str, Any]) -> Dict[str, int]:
+    return {k[4:].upper(): int(v) for k, v in payload.items() if k.startswith("reg_") and isinstance(v, int)}
+
+
+def _pce500_trace_routes(grid: Sequence[Dict[str, int]]) -> Dict[str, List[Dict[str, int]]]:
+    """{route label: per grid point {register name: value}} for every by-name register report of the machine."""
+    import contextlib
+    import io
+    import os
+    import tempfile
+
+    try:
+        from pce500.emulator import PCE500Emulator
+        import pce500.emulator as PE
+        from sc62015.pysc62015.emulator import RegisterName
+    except Exception:
+        raise _Skip()
+
+    names = list(ALL_REGS)
+    routes: Dict[str, List[Dict[str, int]]] = {}
+
+    def plant(emu: Any, pt: Dict[str, int]) -> None:
+        for k, v in pt.items():
+            emu.cpu.regs.set(RegisterName[k], v)
+        emu.cpu.regs.set(RegisterName.PC, _TRACE_CODE_AT)
+
+    def add(label: str, val: Optional[Dict[str, int]]) -> None:
+        if val is not None:
+            routes.setdefault(label, []).append(dict(val))
+
+    sink = io.StringIO()
+    # --- tracing off: collectors and state reports called directly -------------------------------
+    try:
+        with contextlib.redirect_stdout(sink):
+            emu = PCE500Emulator(trace_enabled=False, perfetto_trace=False, save_lcd_on_exit=False)
+    except Exception:
+        raise _Skip()
+    for pt in grid:
+        plant(emu, pt)
+        add("sc62015 Registers, read by name", {n: int(emu.cpu.regs.get(RegisterName[n])) for n in names})
+        snap_fn = getattr(emu.cpu, "snapshot_registers", None)
+        if callable(snap_fn) and hasattr(emu, "_collect_trace_registers_from_snapshot"):
+            try:
+                add("pce500 PCE500Emulator._collect_trace_registers_from_snapshot (observed)",
+                    {k: int(v) for k, v in emu._collect_trace_registers_from_snapshot(snap_fn()).items()})
+            except Exception:
+                pass
+        for label, attr in (("pce500 PCE500Emulator._collect_trace_registers (observed)", "_collect_trace_registers"),
+                            ("pce500 PCE500Emulator._collect_trace_registers_legacy (observed)",
+                             "_collect_trace_registers_legacy")):
+            fn = getattr(emu, attr, None)
+            if callable(fn):
+                try:
+                    add(label, {k: int(v) for k, v in fn().items()})
+                except Exception:
+                    pass
+        try:
+            st = emu.get_cpu_state()
+            rec = {k.upper(): int(v) for k, v in st.items() if k.upper() in names and isinstance(v, int)}
+            fl = st.get("flags") or {}
+            if "c" in fl:
+                rec["FC"] = int(fl["c"])
+            if "z" in fl:
+                rec["FZ"] = int(fl["z"])
+            add("pce500 PCE500Emulator.get_cpu_state (observed)", rec)
+        except Exception:
+            pass
+
+    # --- tracing on: the record the step loop emits for the instruction about to run -----------------
+    def traced(label: str, make: Callable[[str], Any]) -> None:
+        tracer = getattr(PE, "new_tracer", None)
+        if tracer is None or not hasattr(tracer, "begin_slice"):
+            return
+        captured: List[Dict[str, Any]] = []
+        original = tracer.begin_slice
+
+        def spy(track: Any, name: Any, payload: Any = None, *a: Any, **k: Any) -> Any:
+            if track == "Instructions" and isinstance(payload, dict):
+                captured.append(dict(payload))
+            return original(track, name, payload, *a, **k)
+
+        with tempfile.TemporaryDirectory(prefix="c17trace") as tmp:
+            emu2 = None
+            try:
+                with contextlib.redirect_stdout(sink):
+                    emu2 = make(os.path.join(tmp, "t.perfetto-trace"))
+                if not (getattr(emu2, "_new_trace_enabled", False) and tracer.enabled):
+                    return
+                tracer.begin_slice = spy  # type: ignore[method-assign]
+                for off in range(8):
+                    emu2.memory.write_byte(_TRACE_CODE_AT + off, 0x00)
+                recs: List[Dict[str, int]] = []
+                for pt in grid:
+                    plant(emu2, pt)
+                    before = len(captured)
+                    with contextlib.redirect_stdout(sink):
+                        emu2.step()
+                    if len(captured) != before + 1:
+                        return
+                    recs.append(_trace_payload_regs(captured[-1]))
+                routes[label] = recs
+            except Exception:
+                return
+            finally:
+                try:
+                    del tracer.begin_slice
+                except Exception:
+                    pass
+                with contextlib.redirect_stdout(sink):
+                    try:
+                        if emu2 is not None:
+                            emu2.stop_tracing()
+                    except Exception:
+                        pass
+                    try:
+                        tracer.safe_stop()
+                        PE.trace_dispatcher.stop_trace()
+                    except Exception:
+                        pass
+
+    def ctor(path: str) -> Any:
+        return PCE500Emulator(trace_enabled=False, perfetto_trace=True, enable_new_tracing=True,
+                              save_lcd_on_exit=False, trace_path=path)
+
+    def late(path: str) -> Any:
+        e = PCE500Emulator(trace_enabled=False, perfetto_trace=False, save_lcd_on_exit=False)
+        e.start_tracing(path)
+        return e
+
+    traced("pce500 instruction-trace record, perfetto_trace + enable_new_tracing (observed)", ctor)
+    traced("pce500 instruction-trace record, start_tracing() (observed)", late)
+    return routes
+
+
+def check_trace_layout(rust: Any) -> List[Item]:
+    from sc62015.arch import SC62015
+    from sc62015.pysc62015 import emulator as E
+
+    grid = _trace_grid()
+    try:
+        routes = _pce500_trace_routes(grid)
+    except _Skip:
+        return []
+    # the Rust register file, asked for the same names on the same grid
+    ops: List[List[Any]] = []
+    for pt in grid:
+        ops.append(["new"])
+        ops += [["set", k, v] for k, v in pt.items()]
+        ops.append(["set", "PC", _TRACE_CODE_AT])
+        ops += [["get", n] for n in ALL_REGS]
+    resp = rust.call({"cmd": "c17.regscript", "ops": ops})
+    if not resp.get("ok"):
+        raise HarnessError(f"c17.regscript failed: {resp}")
+    vals = [int(v) for v in resp["values"]]
+    routes["rust LlamaState, read by name"] = [
+        {n: vals[k * len(ALL_REGS) + j] for j, n in enumerate(ALL_REGS)} for k in range(len(grid))]
+    # the declared layouts applied to the base value
+    arch_regs = SC62015.regs
+    items: List[Item] = []
+    for name in ALL_REGS:
+        base = SUBREGS.get(name)
+        srcs: List[Tuple[str, Any]] = []
+        for label, recs in routes.items():
+            if len(recs) == len(grid) and all(name in r for r in recs):
+                srcs.append((f"{label} [{name}]", [r[name] for r in recs]))
+        if base is not None:
+            info = E.Registers._SUBREG_INFO.get(E.RegisterName[name])
+            if info is not None:
+                _, shift, mask = info
+                srcs.append((f"emulator.Registers._SUBREG_INFO applied to {base} [{name}]",
+                             [(pt[base] >> int(shift)) & int(mask) for pt in grid]))
+            if name in arch_regs and str(arch_regs[name].name) == base:
+                ri = arch_regs[name]
+                srcs.append((f"arch.SC62015.regs applied to {base} [{name}]",
+                             [(pt[base] >> (8 * int(ri.offset))) & ((1 << (8 * int(ri.size))) - 1) for pt in grid]))
+        kind = "trace-subreg" if base is not None else "trace-reg"
+        traced_routes = sum(1 for lb, _ in srcs if "instruction-trace record" in lb)
+        it = Item(f"{kind}:{name}", len(srcs) >= 2,
+                  [f"{kind}", f"{kind}:traced-routes={traced_routes}"],
+                  {"register": name, "grid_points": len(grid), "routes": [lb for lb, _ in srcs]})
+        group_check(it, "register-report-layout" if base is not None else "register-report-value", srcs,
+                    topic=f"register {name} as reported by name")
+        items.append(it)
+    return items
+
+
+# --------------------------------------------------------------------------------------------------
 # E. address-space constants and the PRE table
 # --------------------------------------------------------------------------------------------------
 
@@ -1863,8 +2360,10 @@ def collect_items() -> List[Item]:
     items += check_opcode_rows(dict(OPCODES), dump["opcodes"])
     items += check_lengths(dict(OPCODES), rust)
     items += check_rel_sign(dict(OPCODES), rust)
+    items += check_opcode_classes(dict(OPCODES), rust, dump)
     items += check_registers(rust, dump)
     items += check_snapshot_layout(rust, dump)
+    items += check_trace_layout(rust)
     items += check_selector_codes(rust)
     items += check_operation_width(dict(OPCODES), rust, dump)
     items += check_imem(rust, dump)
@@ -1909,6 +2408,19 @@ ASSUMPTIONS = [
     "from zero; what MV / EX deliver from an all-ones partner.  Only partners of the register's own size class "
     "are used (the cores differ on out-of-size register-pair codes: C06's subject); A and IL are read as the low "
     "byte of BA / I (layout judged in subreg:*)",
+    "opcode classes: a private classification is observed through one effect per class -- call level +1 / -1 "
+    "(start level 2), WAIT = the cycle count (Rust) / the memory.wait_cycles hook (Python) follows I (I = 5 vs 9), "
+    "IR = timer.in_interrupt raised, RETI = timer.in_interrupt dropped while the call metrics survive (RESET also "
+    "drops it but clears the metrics), RESET = call metrics cleared from level 2, conditional jump = the loop "
+    "detector reports a not-taken branch for a never-taken single-successor step / the next PC depends on F "
+    "(F = 00 vs 03, no assumption about which polarity is taken).  Every opcode runs in its one canonical encoding; "
+    "a step that errors contributes to no class.  The table side is the set of rows carrying the mnemonic(s) the "
+    "private copy names in its own comments (CALL/CALLF/IR, RET/RETF/RETI, WAIT, IR, RETI, RESET) resp. JP/JR "
+    "rows with a condition",
+    "by-name register reports of the machine emulator are compared only on values that went through the register "
+    "file (cpu.regs.set -> cpu.snapshot_registers / cpu.regs.get): the collector's own storage masks (24 bits for "
+    "the address registers) are not probed with synthetic snapshots.  Tracing-on routes are skipped silently when "
+    "the tracer cannot be started; the trace files go to a temporary directory",
     "key-port window of the CoreRuntime bus: an offset belongs to it when the byte loaded from it, or what a store "
     "leaves in memory / in a keyboard latch, depends on the keyboard being attached (twin run with rt.keyboard = "
     "None); the keyboard's latches are set through KeyboardMatrix::handle_write to values that differ from the "
@@ -1934,7 +2446,8 @@ _SAMPLE_IDS = ("opcode:42", "opcode:E3", "opcode:56", "len:F0", "reg-width:X", "
                "reg-index:1", "imem:BP", "imem-use:PY", "vector:interrupt", "vector:reset",
                "const:INTERNAL_MEMORY_START", "pre:37", "view:SC62015FullView:disjoint", "opcode:D6",
                "snap-slot:U", "snap-cross:py-to-rs", "regpair-index:mv:6", "ptr-index:7",
-               "reg-set:20bit", "op-width:INC:S", "op-width:ADD:X", "op-width:MV:U", "imem-window:keyboard")
+               "opclass:conditional-jump", "opclass:call-level-up", "opclass:interrupt-return", "trace-subreg:FZ",
+               "trace-subreg:B", "reg-set:20bit", "op-width:INC:S", "op-width:ADD:X", "op-width:MV:U", "imem-window:keyboard")
 
 
 def _want_sample(rep: Report, it: Item) -> bool:
